@@ -205,6 +205,19 @@ def getitem(it, obj, idx):
 
 
 def getslice(it, obj, lo, hi):
+    c = it.c
+    if isinstance(obj, SRef) and base_type(obj.pytype) == 'list' and (lo is None or isinstance(lo, int)) and hi is None:
+        # lst[k:] for a literal k >= 0: a new list without the first k elements
+        k = lo or 0
+        if k >= 0:
+            n, items = seq_len(it, obj), seq_items(it, obj)
+            r = c.fresh_ref('slice', obj.pytype)
+            n2 = z3.If(n >= k, n - k, 0)
+            A = shifted(c, items, 0, n2, k, 'slice')
+            c.hset(r, '$items', A)
+            c.hset(r, '$len', n2)
+            c.hset(r, '$maxlen', z3.IntVal(-1))
+            return r
     hook = it.w.hooks.get('getslice')
     if hook:
         return hook(it, obj, lo, hi)
@@ -870,6 +883,7 @@ def thread_call(it, obj, meth, args, kwargs):
             raise Raised('RuntimeError')
         c.hset(obj, 'started', z3.BoolVal(True))
         c.hset(obj, 'alive', z3.BoolVal(True))
+        c.pyghost.setdefault('threads_started', []).append(obj)
         hook = it.w.hooks.get('thread.start')
         if hook:
             hook(it, obj)
